@@ -40,6 +40,7 @@ def run(chk: Check) -> None:
     run_floor_of_inexact_quotient(chk, ix)
     run_floor_divide_strength_reduction(chk, ix)
     run_operand_order_kept(chk, ix)
+    run_shift_left_operand_typed(chk, ix)
 
     r1 = chk.rule("R15.1", "every emission of a raw C division/modulo IntOp is guarded against a zero divisor (and -1 for signed operands)", floor=4)
     llb = ix.cls("mypyc.irbuild.ll_builder.LowLevelIRBuilder")
@@ -515,3 +516,32 @@ def run_operand_order_kept(chk: Check, ix) -> None:
             r12.violation(key, f.loc(c), f"`{norm(c)[:70]}` passes the right operand first under {[norm(t)[:40] for t in pos][-3:]}: `b OP n` is compiled as `n OP b`, so `False - 1` gives 1, `False // 3` raises ZeroDivisionError and `False << 3` gives 3 for a native-int right operand")
     if n < 8:
         raise AnalysisError(f"binary_op: only {n} calls taking both operands found")
+
+
+def run_shift_left_operand_typed(chk: Check, ix) -> None:
+    """R15.13: an emitted C shift is performed in the width of the result."""
+    from ..cfg import branch_conditions
+    r13 = chk.rule("R15.13", "C performs `a << b` / `a >> b` in the promoted type of `a` alone (unlike `+`, where the wider operand decides), and a decimal literal that fits is an `int`. codegen/emitfunc.visit_int_op prints Integer operands as bare literals (reg()), so for both shift operators a literal left operand is given the C type of the op's result: an assignment to the left-operand text that prefixes a `(<ctype of op.type>)` cast, under a test naming the shift operator and `isinstance(op.lhs, Integer)`. Otherwise `1 << x` with x: i64 = 40 is a 32-bit shift (256) and `1024 >> 40` is 4", floor=2)
+    cls = ix.cls("mypyc.codegen.emitfunc.FunctionEmitterVisitor")
+    f = cls.methods.get("visit_int_op")
+    if f is None:
+        raise AnalysisError("FunctionEmitterVisitor.visit_int_op not found")
+    par = f.module.parents()
+    covered = set()
+    for a in ast.walk(f.node):
+        if not (isinstance(a, ast.Assign) and isinstance(a.targets[0], ast.Name) and a.targets[0].id == "lhs" and isinstance(a.value, ast.JoinedStr)):
+            continue
+        if not any(isinstance(c, ast.Call) and call_name(c) == "ctype" and c.args and norm(c.args[0]) == "op.type" for c in ast.walk(a.value)):
+            continue
+        pos, _ = branch_conditions(par, f.node, a)
+        text = " and ".join(norm(t) for t in pos)
+        if "isinstance(op.lhs, Integer)" in text:
+            for sh in ("LEFT_SHIFT", "RIGHT_SHIFT"):
+                if sh in text:
+                    covered.add(sh)
+    for sh in ("LEFT_SHIFT", "RIGHT_SHIFT"):
+        key = f"visit_int_op: a literal left operand of {sh} is cast to the result's C type"
+        if sh in covered:
+            r13.ok(key, f.loc())
+        else:
+            r13.violation(key, f.loc(), f"no `lhs = f\"({{self.ctype(op.type)}}){{lhs}}\"` under a test of IntOp.{sh} and isinstance(op.lhs, Integer): the emitted `<literal> {'<<' if sh == 'LEFT_SHIFT' else '>>'} x` is computed in C int whatever the native type of the result")
